@@ -450,3 +450,173 @@ Proof. vm_compute. split; reflexivity. Qed.
 Example C13_ex_main_loop_not_enabled : EmuLoopProofs.ex_main (M_OVNI :: nil) = Err EmuLoopPre.E_FAIL.
 Proof. vm_compute. reflexivity. Qed.
 (* ==== end of block (unit emuloop) ==== *)
+
+(* ==== writer primitives from source (unit pvw) ==== *)
+(* The writer primitives of src/emu/pv/pcf.c, prf.c and prv.c are regenerated on every run into Gen/PvW_gen.v
+   (translate/units/pvw.py; modules Pcf, Prf, Prv) over the prelude Emu/PvWPre.v: one struct pcf / prf / prv and a table
+   of FILEs as state; uthash tables = insertion-ordered lists (find = first entry with the key, add = append); calloc =
+   a pending object that becomes entry number `length` when HASH_ADD appends it; snprintf("%s") truncates and returns
+   the full length; fprintf formats parsed by the translator and rendered with PvDefs' dec / pad_left / pad_right /
+   dec_pad0; the two loop shapes (hh.next walks, counting loops) are primitive folds whose BODIES are translated;
+   write_colors is a primitive.  Emu/PvWRelDefs.v reads that state as PvDefs' tables (abs_pcf, abs_prf, abs_prv).
+   Proofs/PvWProofs.v: each generated function computes the PvDefs primitive - same refusals, same resulting tables,
+   same bytes written (every equation below holds for every state; allocation / fopen / bay_add_cb succeed where said). *)
+From OV Require Emu.PvWPre Emu.PvWRelDefs Gen.PvW_gen Proofs.PvWProofs.
+Module PW := PvWPre.
+Module PR := PvWRelDefs.
+Module PG := PvW_gen.
+
+Theorem C13_writer_primitives_from_source :
+  (* pcf_add_type: NULL exactly when PvDefs refuses (duplicate id, label of 512 bytes or more); otherwise the new entry
+     is appended and its pointer returned *)
+  (forall sx st id label, PW.e_calloc_ok sx = true ->
+     exists r st', PG.Pcf.pcf_add_type tt id label sx st = Ok (r, st') /\ PvWProofs.frame_pcf st st' /\
+       match pcf_add_type (PR.abs_pcf st) id label with
+       | Ok p' => r = Some (length (PW.w_types st)) /\ PR.abs_pcf st' = p'
+       | Err _ => r = None /\ PW.w_types st' = PW.w_types st
+       end) /\
+  (* pcf_add_value on the entry at position h (ids before it differ): int64 values *)
+  (forall sx st h o v label, PW.e_calloc_ok sx = true -> nth_error (PW.w_types st) h = Some o ->
+     (forall j o', (j < h)%nat -> nth_error (PW.w_types st) j = Some o' -> PW.ct_id o' <> PW.ct_id o) ->
+     exists r st', PG.Pcf.pcf_add_value (Some h) v label sx st = Ok (r, st') /\ PvWProofs.frame_pcf st st' /\
+       match pcf_add_value (PR.abs_pcf st) (PW.ct_id o) v label with
+       | Ok p' => r = Some PW.VNew /\ PR.abs_pcf st' = p' /\
+                  (exists o', nth_error (PW.w_types st') h = Some o' /\ PW.ct_nvalues o' = PW.ct_nvalues o + 1)
+       | Err _ => r = None /\ PW.w_types st' = PW.w_types st
+       end) /\
+  (* pcf_close: header, colours, every type with its values in insertion order = PvDefs.pcf_text; the file is closed *)
+  (forall sx st i c, PW.w_pcf_f st = Some i -> nth_error (PW.w_files st) i = Some (c, true) ->
+     PG.Pcf.pcf_close tt sx st =
+     Ok (tt, PW.upd_files st (update (PW.w_files st) i (c ++ pcf_text (PR.abs_pcf st), false)))) /\
+  (* prf_add / prf_close *)
+  (forall sx st l idx label, PW.w_rows st = Some l -> PW.w_nrows st = Z.of_nat (length l) ->
+     match prf_add (PR.abs_prf st) idx label with
+     | Ok p' => exists st', PG.Prf.prf_add tt idx label sx st = Ok (tt, st') /\ PR.abs_prf st' = p' /\
+                            (exists l', PW.w_rows st' = Some l' /\ length l' = length l) /\
+                            PW.w_nrows st' = PW.w_nrows st /\ PW.w_prf_f st' = PW.w_prf_f st /\ PW.w_files st' = PW.w_files st /\
+                            PR.same_pcf st st' /\ PR.same_prv st st'
+     | Err _ => PG.Prf.prf_add tt idx label sx st = Err PW.E_FAIL
+     end) /\
+  (forall sx st l i c, PW.w_rows st = Some l -> PW.w_nrows st = Z.of_nat (length l) ->
+     PW.w_prf_f st = Some i -> nth_error (PW.w_files st) i = Some (c, true) ->
+     match prf_close (PR.abs_prf st) with
+     | Ok text => PG.Prf.prf_close tt sx st = Ok (tt, PW.upd_files st (update (PW.w_files st) i (c ++ text, false)))
+     | Err _ => PG.Prf.prf_close tt sx st = Err PW.E_FAIL
+     end) /\
+  (* prv_register (get_id, find_prv_chan, check_flags of unit prv, bay_add_cb, HASH_ADD_LONG) and the two formats *)
+  (forall sx st row ty bay chan flags, PW.e_calloc_ok sx = true -> PW.e_bay_ok sx = true ->
+     match prv_register (PR.abs_prv st) row ty flags with
+     | Ok pv' => exists st', PG.Prv.prv_register tt row ty bay chan flags sx st = Ok (tt, st') /\ PR.abs_prv st' = pv' /\
+                             PW.w_cbs st' = PW.w_cbs st ++ [(chan, length (PW.w_chans st))] /\
+                             PW.w_files st' = PW.w_files st /\ PR.same_pcf st st' /\ PR.same_prf st st'
+     | Err _ => PG.Prv.prv_register tt row ty bay chan flags sx st = Err PW.E_FAIL
+     end) /\
+  (forall sx st i c row1 ty v, PW.w_prv_file st = Some i -> nth_error (PW.w_files st) i = Some (c, true) ->
+     PG.Prv.write_line tt row1 ty v sx st =
+     Ok (tt, PW.upd_files st (update (PW.w_files st) i (c ++ prv_line row1 (PW.w_time st) ty v, true)))) /\
+  (forall sx st i nrows, nth_error (PW.w_files st) i = Some ([], true) ->
+     exists st', PG.Prv.prv_open_file tt nrows (Some i) sx st = Ok (tt, st') /\ PR.abs_prv st' = prv_open nrows /\
+                 PW.w_prv_file st' = Some i /\ PW.w_cnew st' = PW.w_cnew st /\ PR.same_pcf st st' /\ PR.same_prf st st').
+Proof.
+  exact (conj PvWProofs.pcf_add_type_eq (conj PvWProofs.pcf_add_value_eq (conj PvWProofs.pcf_close_eq
+        (conj PvWProofs.prf_add_eq (conj PvWProofs.prf_close_eq (conj PvWProofs.prv_register_eq
+        (conj PvWProofs.prv_write_line_eq PvWProofs.prv_open_file_eq))))))).
+Qed.
+Print Assumptions C13_writer_primitives_from_source.
+
+Theorem C13_prf_open_from_source : forall sx st path nrows,
+  PW.e_calloc_ok sx = true -> PW.e_fopen_ok sx = true -> 0 <= nrows < 2 ^ 63 ->
+  exists st', PG.Prf.prf_open tt path nrows sx st = Ok (tt, st') /\ PR.abs_prf st' = prf_open (Z.to_nat nrows) /\
+              PW.w_nrows st' = nrows /\ PW.w_rows st' = Some (repeat PW.zero_row (Z.to_nat nrows)) /\
+              PW.w_prf_f st' = Some (length (PW.w_files st)) /\ PW.w_files st' = PW.w_files st ++ [([], true)] /\
+              PR.same_pcf st st' /\ PR.same_prv st st'.
+Proof. exact PvWProofs.prf_open_eq. Qed.
+Print Assumptions C13_prf_open_from_source.
+
+(* the refusals of B5, re-derived for the generated code *)
+Theorem C13_pcf_dup_type_refused_from_source : forall sx st id l, PW.e_calloc_ok sx = true -> declared (PR.abs_pcf st) id ->
+  exists st', PG.Pcf.pcf_add_type tt id l sx st = Ok (None, st') /\ PW.w_types st' = PW.w_types st.
+Proof. exact PvWProofs.gen_pcf_dup_type_refused. Qed.
+Print Assumptions C13_pcf_dup_type_refused_from_source.
+Theorem C13_pcf_dup_value_refused_from_source : forall sx st h o v l k, PW.e_calloc_ok sx = true ->
+  nth_error (PW.w_types st) h = Some o -> PW.find_idx (fun x => fst x =? v) (PW.ct_values o) = Some k ->
+  PG.Pcf.pcf_add_value (Some h) v l sx st = Ok (None, st).
+Proof. exact PvWProofs.gen_pcf_dup_value_refused. Qed.
+Print Assumptions C13_pcf_dup_value_refused_from_source.
+Theorem C13_pcf_long_label_refused_from_source :
+  (forall sx st id l, PW.e_calloc_ok sx = true -> MAXL <= slen l ->
+     exists st', PG.Pcf.pcf_add_type tt id l sx st = Ok (None, st') /\ PW.w_types st' = PW.w_types st) /\
+  (forall sx st h o v l, PW.e_calloc_ok sx = true -> nth_error (PW.w_types st) h = Some o ->
+     (forall j o', (j < h)%nat -> nth_error (PW.w_types st) j = Some o' -> PW.ct_id o' <> PW.ct_id o) -> MAXL <= slen l ->
+     exists st', PG.Pcf.pcf_add_value (Some h) v l sx st = Ok (None, st') /\ PW.w_types st' = PW.w_types st).
+Proof. exact (conj PvWProofs.gen_pcf_long_type_refused PvWProofs.gen_pcf_long_value_refused). Qed.
+Print Assumptions C13_pcf_long_label_refused_from_source.
+Theorem C13_row_refusals_from_source :
+  (forall sx st l idx label, PW.w_rows st = Some l -> PW.w_nrows st = Z.of_nat (length l) ->
+     idx < 0 \/ PW.w_nrows st <= idx -> PG.Prf.prf_add tt idx label sx st = Err PW.E_FAIL) /\
+  (forall sx st l idx label, PW.w_rows st = Some l -> PW.w_nrows st = Z.of_nat (length l) ->
+     MAXR <= slen label -> PG.Prf.prf_add tt idx label sx st = Err PW.E_FAIL) /\
+  (forall sx st l idx label label' st1, PW.w_rows st = Some l -> PW.w_nrows st = Z.of_nat (length l) ->
+     PG.Prf.prf_add tt idx label sx st = Ok (tt, st1) -> PG.Prf.prf_add tt idx label' sx st1 = Err PW.E_FAIL) /\
+  (forall sx st l i c, PW.w_rows st = Some l -> PW.w_nrows st = Z.of_nat (length l) ->
+     PW.w_prf_f st = Some i -> nth_error (PW.w_files st) i = Some (c, true) ->
+     In None (PR.abs_prf st) -> PG.Prf.prf_close tt sx st = Err PW.E_FAIL).
+Proof.
+  exact (conj PvWProofs.gen_prf_bounds_refused (conj PvWProofs.gen_prf_long_refused
+        (conj PvWProofs.gen_prf_twice_refused PvWProofs.gen_prf_unset_refused))).
+Qed.
+Print Assumptions C13_row_refusals_from_source.
+Theorem C13_prv_refusals_from_source :
+  (forall sx st row ty bay chan fl fl' bay' chan' st1, PW.e_calloc_ok sx = true -> PW.e_bay_ok sx = true ->
+     PG.Prv.prv_register tt row ty bay chan fl sx st = Ok (tt, st1) ->
+     PG.Prv.prv_register tt row ty bay' chan' fl' sx st1 = Err PW.E_FAIL) /\
+  (forall sx st row ty bay chan fl, PW.e_calloc_ok sx = true -> PW.e_bay_ok sx = true ->
+     check_flags fl = false -> PG.Prv.prv_register tt row ty bay chan fl sx st = Err PW.E_FAIL).
+Proof. exact (conj PvWProofs.gen_prv_dup_channel_refused PvWProofs.gen_prv_bad_flags_refused). Qed.
+Print Assumptions C13_prv_refusals_from_source.
+
+(* non-vacuity, by computation on the generated code: three FILEs open; a PCF with one type and one value (the second
+   add of the value and of the type are refused), closed = pcf_text; a ROW file of two rows (close refused while a row
+   is unset, a row cannot be set twice, index 2 is out of bounds) = prf_text; a PRV with a channel registered once
+   (twice / bad flags refused) and one record *)
+Definition pvw_st0 : PW.wstate :=
+  {| PW.w_files := [([], true); ([], true); ([], true)]; PW.w_pcf_f := Some 0%nat; PW.w_types := []; PW.w_tnew := None;
+     PW.w_vnew := None; PW.w_prf_f := None; PW.w_nrows := 0; PW.w_rows := None; PW.w_prv_file := None; PW.w_time := 0;
+     PW.w_prv_nrows := 0; PW.w_chans := []; PW.w_cnew := None; PW.w_cbs := [] |}.
+
+Example C13_ex_pvw_pcf :
+  match PW.bind (PG.Pcf.pcf_add_type tt 7 [84; 121]) (fun t =>
+        PW.bind (PG.Pcf.pcf_add_value t 3 [97]) (fun v1 =>
+        PW.bind (PG.Pcf.pcf_add_value t 3 [98]) (fun v2 =>
+        PW.bind (PG.Pcf.pcf_add_type tt 7 [90]) (fun t2 =>
+        PW.bind_ (PG.Pcf.pcf_close tt) (PW.ret (v1, v2, t2)))))) PR.env_ok pvw_st0 with
+  | Ok ((v1, v2, t2), st) =>
+    v1 = Some PW.VNew /\ v2 = None /\ t2 = None /\ PW.file_open st (Some 0%nat) = false /\
+    PW.file_bytes st (Some 0%nat) = pcf_text [{| pt_id := 7; pt_label := [84; 121]; pt_values := [(3, [97])] |}]
+  | Err _ => False
+  end.
+Proof. vm_compute. repeat split. Qed.
+
+Example C13_ex_pvw_prf :
+  match PW.bind_ (PG.Prf.prf_open tt [120] 2) (PW.bind_ (PG.Prf.prf_add tt 0 [97]) (PW.bind_ (PG.Prf.prf_add tt 1 [98])
+          (PG.Prf.prf_close tt))) PR.env_ok pvw_st0 with
+  | Ok (_, st) => PW.file_bytes st (Some 3%nat) = prf_text [[97]; [98]] /\ PW.file_open st (Some 3%nat) = false
+  | Err _ => False
+  end /\
+  PW.bind_ (PG.Prf.prf_open tt [120] 2) (PW.bind_ (PG.Prf.prf_add tt 0 [97]) (PG.Prf.prf_close tt)) PR.env_ok pvw_st0 = Err PW.E_FAIL /\
+  PW.bind_ (PG.Prf.prf_open tt [120] 2) (PW.bind_ (PG.Prf.prf_add tt 0 [97]) (PG.Prf.prf_add tt 0 [98])) PR.env_ok pvw_st0 = Err PW.E_FAIL /\
+  PW.bind_ (PG.Prf.prf_open tt [120] 2) (PG.Prf.prf_add tt 2 [97]) PR.env_ok pvw_st0 = Err PW.E_FAIL.
+Proof. vm_compute. repeat split. Qed.
+
+Example C13_ex_pvw_prv :
+  match PW.bind_ (PG.Prv.prv_open_file tt 2 (Some 2%nat)) (PW.bind_ (PG.Prv.prv_register tt 1 9 tt 5 0)
+          (PG.Prv.write_line tt 2 9 33)) PR.env_ok pvw_st0 with
+  | Ok (_, st) => PW.file_bytes st (Some 2%nat) = prv_header 0 2 ++ prv_line 2 0 9 33 /\ PW.w_cbs st = [(5, 0%nat)] /\
+                  pv_chans (PR.abs_prv st) = [{| pc_id := 19; pc_row1 := 2; pc_type := 9; pc_flags := 0 |}]
+  | Err _ => False
+  end /\
+  PW.bind_ (PG.Prv.prv_open_file tt 2 (Some 2%nat)) (PW.bind_ (PG.Prv.prv_register tt 1 9 tt 5 0)
+     (PG.Prv.prv_register tt 1 9 tt 6 8)) PR.env_ok pvw_st0 = Err PW.E_FAIL /\
+  PW.bind_ (PG.Prv.prv_open_file tt 2 (Some 2%nat)) (PG.Prv.prv_register tt 1 9 tt 5 3) PR.env_ok pvw_st0 = Err PW.E_FAIL.
+Proof. vm_compute. repeat split. Qed.
+(* ==== end of block (unit pvw) ==== *)
